@@ -17,7 +17,7 @@ type C12Case struct {
 	PatchID string            `json:"patch_id"`
 	Patches []string          `json:"patches"`
 	Files   map[string]string `json:"files"` // name -> content
-	Args    string            `json:"args"` // dot | dot+abs (the directory and, again, the absolute path of its first file) | dot+dir
+	Args    string            `json:"args"`  // dot | dot+abs (the directory and, again, the absolute path of its first file) | dot+dir
 	SIP     bool              `json:"skip_import_processing"`
 	SG      bool              `json:"skip_generated"`
 	V       bool              `json:"verbose"`
@@ -27,14 +27,16 @@ func init() {
 	core.Register(&core.Property{
 		ID:    "C12",
 		Level: "model_checking",
-		Rule: "universe = patch sets (single change, two changes with/without descriptions, import edits, statement/declaration patterns, two patch files) x every non-empty subset of each of two 4-file sets {match, match+imports, no match, generated | no final newline, CRLF, not gofmt-ed, import rewrite} x all combinations of --skip-import-processing, --skip-generated, -v; each case is executed in all four mode combinations (default, --diff, --print-only, --diff --print-only) = all 32 flag combinations. " +
+		Rule: "universe = patch sets (single change, two changes with/without descriptions, import edits, statement/declaration patterns, two patch files) x every non-empty subset of each of three 4-file sets {match, match+imports, no match, generated | no final newline, CRLF, not gofmt-ed, import rewrite | BOM, cgo preamble, raw strings, generics+label+build constraint} x all combinations of --skip-import-processing, --skip-generated, -v; each case is executed in all four mode combinations (default, --diff, --print-only, --diff --print-only) = all 32 flag combinations. " +
 			"oracle: whole-tree snapshot identical for dry runs; bytes written == --print-only output == patch(1)-style application of the --diff output == library API; descriptions only on stderr and only for files to which a described change applied. non-trivial = at least one file is rewritten",
 		Assumptions: []string{
 			"the unified diff is applied with patch(1) semantics by an independent applier (lines outside hunks are copied verbatim)",
 			"the library API is compared only for single-patch-file cases without --skip-import-processing (the API has no such option)",
 			"the static inventory of write sites named in the property's anchors is a different technique and is not performed",
 		},
-		Bounds:  func(tier string) map[string]any { return map[string]any{"patch_sets": len(c12Patches()), "file_sets": 30} },
+		Bounds: func(tier string) map[string]any {
+			return map[string]any{"patch_sets": len(c12Patches()), "file_sets": 30}
+		},
 		NewCase: func() any { return &C12Case{} },
 		Gen:     c12Gen,
 		Run:     c12Run,
@@ -119,18 +121,22 @@ func c12LayoutPatches(tier string) []c12Patch {
 }
 
 func c12FileSets() [][]string {
-	return [][]string{{"m1.go", "m2.go", "n.go", "gen.go"}, {"nonl.go", "crlf.go", "ugly.go", "imp.go"}}
+	return [][]string{{"m1.go", "m2.go", "n.go", "gen.go"}, {"nonl.go", "crlf.go", "ugly.go", "imp.go"}, {"bom.go", "cgo.go", "raw.go", "generic.go"}}
 }
 
 var c12Sources = map[string]string{
-	"m1.go":   "package a\n\n// F doc.\nfunc F() int {\n\tv := f1(1)\n\treturn v\n}\n",
-	"m2.go":   "package a\n\nimport (\n\t\"fmt\"\n\t\"os\"\n)\n\nfunc G() {\n\tfmt.Println(f1(2), f2(os.Args))\n\tf2(3) // trailing\n}\n",
-	"n.go":    "package a\n\nfunc N(a int) int   { return   a }\n",
-	"gen.go":  "// Code generated by x. DO NOT EDIT.\n\npackage a\n\nfunc H() int {\n\tv := f1(1)\n\treturn v + f2(2)\n}\n",
-	"nonl.go": "package a\n\nvar A = f1(1)\n\nvar B = 2\n\nvar C = 3\n\nvar D = 4\n\nvar E = 5\n\nvar Z = 26",
-	"crlf.go": "package a\r\n\r\nvar A = f1(1)\r\n\r\nvar B = f2(2)\r\n",
-	"ugly.go": "package a\nfunc U( ) {  x:=f2( 1 );_ = x\n  f1(x)}\n",
-	"imp.go":  "package a\n\nimport (\n\t\"old/p\"\n\t\"os\"\n)\n\nfunc I() {\n\tp.F1()\n\tf1(os.Args)\n}\n",
+	"m1.go":      "package a\n\n// F doc.\nfunc F() int {\n\tv := f1(1)\n\treturn v\n}\n",
+	"m2.go":      "package a\n\nimport (\n\t\"fmt\"\n\t\"os\"\n)\n\nfunc G() {\n\tfmt.Println(f1(2), f2(os.Args))\n\tf2(3) // trailing\n}\n",
+	"n.go":       "package a\n\nfunc N(a int) int   { return   a }\n",
+	"gen.go":     "// Code generated by x. DO NOT EDIT.\n\npackage a\n\nfunc H() int {\n\tv := f1(1)\n\treturn v + f2(2)\n}\n",
+	"nonl.go":    "package a\n\nvar A = f1(1)\n\nvar B = 2\n\nvar C = 3\n\nvar D = 4\n\nvar E = 5\n\nvar Z = 26",
+	"crlf.go":    "package a\r\n\r\nvar A = f1(1)\r\n\r\nvar B = f2(2)\r\n",
+	"ugly.go":    "package a\nfunc U( ) {  x:=f2( 1 );_ = x\n  f1(x)}\n",
+	"bom.go":     "\xef\xbb\xbfpackage a\n\nvar A = f1(1)\n",
+	"cgo.go":     "package a\n\n/*\n#include <stdio.h>\n*/\nimport \"C\"\n\nimport \"os\"\n\nfunc K() {\n\tf1(C.int(1))\n\tf2(os.Args)\n}\n",
+	"raw.go":     "package a\n\nvar S = `f1(1)\n\tf2(2)  \n` // f1(3)\n\nfunc R() string {\n\treturn f1(S) + `\n`\n}\n",
+	"generic.go": "//go:build !ignore\n\npackage a\n\nfunc G[T any](v T) T {\nL:\n\tfor {\n\t\tf1(v)\n\t\tbreak L\n\t}\n\treturn f2[T](v)\n}\n",
+	"imp.go":     "package a\n\nimport (\n\t\"old/p\"\n\t\"os\"\n)\n\nfunc I() {\n\tp.F1()\n\tf1(os.Args)\n}\n",
 }
 
 // which markers make which change apply
